@@ -477,6 +477,23 @@ class H5Attrs(dict):
             v = value
         dict.__setitem__(self, key, v)
 
+    def create(self, name, data, shape=None, dtype=None):
+        """h5py contract: the attribute is stored converted to `dtype` (numpy casting rules)"""
+        from .core import Unsupported
+        from .sarray import SymArray, has_sym
+
+        if dtype is None:
+            self[name] = data
+            return
+        dt = np.dtype(dtype)
+        if isinstance(data, SymArray) or has_sym(data if isinstance(data, (list, tuple, np.ndarray)) else [data]):
+            if dt.kind != "f" or dt.itemsize < 8:
+                raise Unsupported(f"h5 attribute cast of symbolic data to {dt}")
+            self[name] = data
+            return
+        v = np.asarray(data).astype(dt)
+        self[name] = v if v.ndim else v[()]
+
 
 class H5Group:
     def __init__(self):
@@ -830,6 +847,15 @@ class VtkGrid:
 
     def SetZCoordinates(self, a):
         self.coords[2] = a
+
+    def GetXCoordinates(self):
+        return self.coords[0]
+
+    def GetYCoordinates(self):
+        return self.coords[1]
+
+    def GetZCoordinates(self):
+        return self.coords[2]
 
     def GetCellData(self):
         return self.cell_data
